@@ -12,7 +12,7 @@ Sub-checks (the `check` field of a violation):
   mvn-logprob     range-space Gaussian density for every constructor / batch layout
   mvn-rank        the distribution's rank and log_pdet properties
   mvn-null        invariance to null-space shifts
-  mvn-ctor        agreement of all twelve constructor variants
+  mvn-ctor        agreement of all thirteen constructor variants
   mvn-sample      linear map of the sampler reconstructed from scripted unit normals:
                   S S^T = pinv(P), N^T S = 0; real-key samples lie in the range space
 """
@@ -30,8 +30,8 @@ PROPERTY = "C18"
 RULE = (
     "full products: (dimension x penalty {I, SPD, RW1, RW2, zero-block x2, stacked batch of all}) x "
     "(variance {0.1,1,7} or batched) x (loc {0, vector} or batched) x batch layouts {(), (2,), (2,3), "
-    "mixed broadcasting} x 12 constructor variants (precision / from_penalty / from_penalty_smooth, "
-    "rank and log-pdet supplied or not) x lattice {-1,0,2}^d plus null-space shifts; sampler: "
+    "mixed broadcasting} x 13 constructor variants (precision / from_penalty / from_penalty_smooth, "
+    "rank and log-pdet supplied or not; precision with explicit tol) x lattice {-1,0,2}^d plus null-space shifts; sampler: "
     "scripted normals z=e_i for every i, sample shapes (), (2,), (2,2); algebraic sigmoid: 41-point "
     "x and y lattices in float32 and float64; copula: 8 dependences (+None) x 7x7 unit-square "
     "lattice x validate_args x batch shapes, marginals on a 198-node composite Gauss-Legendre rule. "
@@ -43,17 +43,25 @@ ASSUMPTIONS = [
     "eager evaluation runs inside jax.disable_jit() (lax.fori_loop in _log_pdet would otherwise be recompiled for every case); every (dimension, penalty, constructor) is additionally run once under jax.jit",
     "lattice checks say nothing about points between lattice values; penalties have integer entries (exact in float32)",
     "marginal uniformity is checked on [1e-6, 1-1e-6] with tolerance 1e-3 (mass outside < 2e-5 on the lattice used)",
+    "signature classification only: a rank / sampler failure is reported as 'null-eigenvalue-noise-above-tol' (open known finding) iff liesel's own dist.eig eigenvalue of a reference-null direction exceeds the documented absolute tol=1e-6; the affected batch element is then excluded from the downstream log-density / constructor-agreement / covariance comparisons, everything else stays a violation",
+    "round trips pass fresh arrays to the bijector because TFP caches forward/inverse pairs by object identity",
 ]
 
 VARS = (0.1, 1.0, 7.0)
 LOCVEC = (0.5, -1.0, 2.0, -0.25, 1.5, -0.75)
-RHOS = (-0.95, -0.5, -0.1, 0.0, 0.1, 0.42, 0.9, 0.99)
+RHOS = (0.0, -0.5, 0.42, -0.1, 0.1, 0.9, -0.95, 0.99)  # simplest first; both halves contain both signs
+
+import os  # noqa: E402
+
+# development aid only: VERIF_TOLSCALE=0.1 divides every tolerance by 10 (used once to
+# show the margin between float32 noise and the tolerances; never set by the runner)
+TOLSCALE = float(os.environ.get("VERIF_TOLSCALE", "1"))
 
 # tolerance factors (multiples of the magnitude scale of the summed terms)
-MVN_RTOL = 2e-5      # observed float32 noise <= ~1.5e-6 x scale
-SAMPLE_RTOL = 2e-4   # on S S^T relative to max|pinv| (observed <= ~5e-6)
-COPULA_RTOL = 5e-5   # observed <= ~3e-6 x scale
-MARGIN_TOL = 1e-3
+MVN_RTOL = 2e-5 * TOLSCALE      # observed float32 noise <= ~3e-7 x scale
+SAMPLE_RTOL = 2e-4 * TOLSCALE   # on S S^T relative to max|pinv|
+COPULA_RTOL = 5e-5 * TOLSCALE
+MARGIN_TOL = 1e-3 * TOLSCALE
 
 
 def bounds(tier):
@@ -62,7 +70,7 @@ def bounds(tier):
         "penalties": list(ref.PENALTIES) + ["stacked batch"],
         "variances": list(VARS) if tier == "quick" else [0.01] + list(VARS) + [100.0],
         "batch_shapes": [[], [2], [2, 3], "mixed (3,)x(2,1)"],
-        "constructor_variants": 12,
+        "constructor_variants": 13,
         "lattice_values": [-1.0, 0.0, 2.0],
         "sample_shapes": [[], [2], [2, 2]],
         "asig_lattice_points": 41,
@@ -93,7 +101,8 @@ def units(tier, seed):
             else:
                 us.append({"kind": "mvn", "d": d, "pen": pen, "vars": _vars(tier) + ["batch"]})
     for d in _dims(tier):
-        us.append({"kind": "mvn-sample", "d": d, "vars": _vars(tier), "keys": sorted({0, 1, 1000 + seed})})
+        for pen in ref.penalties(d) + ["batch"]:
+            us.append({"kind": "mvn-sample", "d": d, "pen": pen, "vars": _vars(tier), "keys": sorted({0, 1, 1000 + seed})})
     return us
 
 
@@ -136,7 +145,7 @@ def call(rec, check, sig, case, fn):
     except HarnessError:
         raise
     except Exception as e:  # noqa: BLE001
-        rec.fail(check, f"{sig}:raises-{type(e).__name__}", case, f"{type(e).__name__}: {str(e)[:200]} for {case}")
+        rec.fail(check, f"{sig}:raises-{type(e).__name__}", case, f"{check} [{sig}] raised {type(e).__name__}({str(e)[:200]!r}) for the in-domain input {case}")
         return False, None
 
 
@@ -158,7 +167,7 @@ def run_asig(unit, res):
     ys64 = f64(ref.asig_y_lattice())
 
     def one_mode(mode, validate):
-        eps = 6e-8 if mode == "f32" else 1.2e-16
+        eps = (6e-8 if mode == "f32" else 5e-16) * TOLSCALE  # unit round-off x ~4 (margin measured: >= 10x)
         dt = jnp.float32 if mode == "f32" else jnp.float64
         b = AlgebraicSigmoid(validate_args=validate)
         x = jnp.asarray(xs64, dtype=dt)
@@ -187,8 +196,11 @@ def run_asig(unit, res):
         cond_y = 1.0 / ((1 - yr) * (1 + yr))
         iy = b.inverse(y)
         cmp("inverse", iy, ref.asig_inverse(yr), (16 * eps + 4 * eps * cond_y) * np.abs(ref.asig_inverse(yr)) + 1e-300, yr)
-        cmp("inverse-of-forward", b.inverse(fx), xr, (32 * eps + 8 * eps * (1 + xr**2)) * np.abs(xr) + 1e-300, xr)
-        cmp("forward-of-inverse", b.forward(iy), yr, (32 * eps + 8 * eps) * np.abs(yr) + 1e-300, yr)
+        # TFP bijectors cache forward/inverse pairs by object identity: b.inverse(b.forward(x))
+        # would return x without calling _inverse. Fresh arrays defeat the cache.
+        fresh = lambda a: jnp.asarray(np.array(a), dtype=dt)  # noqa: E731
+        cmp("inverse-of-forward", b.inverse(fresh(fx)), xr, (32 * eps + 16 * eps * (1 + xr**2)) * np.abs(xr) + 1e-300, xr)
+        cmp("forward-of-inverse", b.forward(fresh(iy)), yr, (32 * eps + 8 * eps) * np.abs(yr) + 1e-300, yr)
         # log-det-Jacobians against the closed-form derivative
         lf = np.log(ref.asig_dforward(xr))
         cmp("fldj", b.forward_log_det_jacobian(x, event_ndims=0), lf, 16 * eps * (1 + np.abs(lf)), xr)
@@ -333,10 +345,16 @@ def run_copula(unit, res):
 # ---------------------------------------------------------------------------------
 
 CTORS = [(c, gr, gl) for c in ("prec", "pen", "smooth") for gr in (False, True) for gl in (False, True)]
+# 13th variant: precision constructor with an explicit eigenvalue tolerance that is above
+# the float32 eigenvalue noise of every precision matrix used and below every non-zero
+# eigenvalue (smallest: 0.268/100), so that rank detection from the eigenvalues of
+# *scaled* rank-deficient precisions is exercised without the known noise problem
+EXPLICIT_TOL = 1e-3
+CTORS.append(("prectol", False, False))
 
 
 def ctor_name(c, gr, gl):
-    return c + ("+rank" if gr else "") + ("+lpdet" if gl else "")
+    return ("prec+tol" if c == "prectol" else c) + ("+rank" if gr else "") + ("+lpdet" if gl else "")
 
 
 def batch_layouts(pen_batched: bool):
@@ -415,6 +433,8 @@ def mvn_cases(unit):
 def make_dist(M, jnp, ctor, gr, gl, inp):
     """Builds the real distribution for one constructor variant."""
     rank = inp["rank_arg"] if gr else None
+    if ctor == "prectol":
+        return M(loc=jnp.asarray(inp["loc32"]), prec=jnp.asarray(inp["prec32"]), tol=EXPLICIT_TOL)
     if ctor == "prec":
         lp = jnp.asarray(inp["lp_prec32"]) if gl else None
         return M(loc=jnp.asarray(inp["loc32"]), prec=jnp.asarray(inp["prec32"]), rank=rank, log_pdet=lp)
@@ -448,6 +468,8 @@ def prepare(d, penspec, vs, ls, shapes, varlist, jnp):
     varB = np.broadcast_to(varr, B)
     smoothB = np.broadcast_to(f64(inp["smooth32"]), B)
     inp["P"] = {"prec": penB / varB[..., None, None], "pen": penB / varB[..., None, None], "smooth": penB * smoothB[..., None, None]}
+    inp["P"]["prectol"] = inp["P"]["prec"]
+    inp["prec32B"] = np.broadcast_to(inp["prec32"], B + (d, d))
     inp["locB"] = np.broadcast_to(f64(inp["loc32"]), B + (d,))
     inp["ranksB"] = np.broadcast_to(ranks, B)
     return inp
@@ -478,6 +500,39 @@ def eval_points(d, inp):
     return f32(X), shifts
 
 
+DOC_TOL = 1e-6  # documented default of MultivariateNormalDegenerate(tol=...)
+
+
+def noise_explained(dist, inp, ctor, B, d, strict):
+    if ctor == "prectol":
+        return np.zeros(B, dtype=bool), np.zeros(B, dtype=int), None
+    """
+    Signature classification only (never turns a failure into a pass): for which batch
+    elements does the implementation's OWN eigendecomposition (public property
+    ``dist.eig``) contain more eigenvalues above the documented absolute tolerance than
+    the true rank? There the tolerance logic works as written and the failure is float32
+    eigenvalue noise above tol. strict: '>' as in _rank; otherwise '>=' as in _sqrt_pcov.
+    """
+    ev = np.broadcast_to(np.asarray(dist.eig[0], dtype=np.float64), B + (d,))
+    out = np.zeros(B, dtype=bool)
+    cnt = np.zeros(B, dtype=int)
+    for idx in np.ndindex(B):
+        n_above = int(np.sum(ev[idx] > DOC_TOL)) if strict else int(np.sum(ev[idx] >= DOC_TOL))
+        cnt[idx] = n_above
+        out[idx] = n_above > ref.spectral(inp["P"][ctor][idx])["rank"]
+    return out, cnt, ev
+
+
+def ref_grid_mvn(Xr, inp, ctor, B):
+    want = np.empty((len(Xr),) + B)
+    scale = np.empty((len(Xr),) + B)
+    for idx in np.ndindex(B):
+        w, s = ref.mvn_logpdf_many(Xr, inp["locB"][idx], inp["P"][ctor][idx])
+        want[(slice(None),) + idx] = w
+        scale[(slice(None),) + idx] = s
+    return want, scale
+
+
 def run_mvn(unit, res):
     import jax
     import jax.numpy as jnp
@@ -496,15 +551,11 @@ def run_mvn(unit, res):
         xin = jnp.asarray(X32.reshape((len(X32),) + (1,) * len(B) + (d,)))
         case0 = {"d": d, "pen": inp["pen_names"], "var": f64(inp["var32"]).tolist(), "loc": f64(inp["loc32"]).tolist(), "layout": layout}
         got_all = {}
+        scale = None
         for ctor, gr, gl in CTORS:
             cn = ctor_name(ctor, gr, gl)
             case = {**case0, "ctor": cn}
-            want = np.empty((len(Xr),) + B)
-            scale = np.empty((len(Xr),) + B)
-            for idx in np.ndindex(B):
-                w, s = ref.mvn_logpdf_many(Xr, inp["locB"][idx], inp["P"][ctor][idx])
-                want[(slice(None),) + idx] = w
-                scale[(slice(None),) + idx] = s
+            want, scale = ref_grid_mvn(Xr, inp, ctor, B)
             rcs = sorted({rank_class(int(r), d) for r in inp["ranksB"].reshape(-1)})
             tag = f"{cn}:{'/'.join(rcs)}:{'batched' if B else 'unbatched'}"
             with jax.disable_jit():
@@ -525,8 +576,39 @@ def run_mvn(unit, res):
             if lp.shape != want.shape or tuple(dist.batch_shape) != tuple(B) or tuple(dist.event_shape) != (d,):
                 rec.fail("mvn-logprob", f"shape-{tag}", case, f"log_prob shape {lp.shape} (expected {want.shape}), batch_shape {dist.batch_shape}, event_shape {dist.event_shape}")
                 continue
-            got_all[cn] = lp
+            # rank / log_pdet properties (of the precision matrix)
+            try:
+                rgot = np.broadcast_to(np.asarray(rk[0]), B)
+                lgot = np.broadcast_to(np.asarray(rk[1], dtype=np.float64), B)
+            except ValueError:
+                rec.fail("mvn-rank", f"shape-{tag}", case, f"rank shape {np.shape(rk[0])}, log_pdet shape {np.shape(rk[1])} do not broadcast to batch shape {B}")
+                continue
+            explained = np.zeros(B, dtype=bool)
+            if ctor == "prec" and not gr:  # the only variants whose rank comes from eigh(prec) with the default tol
+                with jax.disable_jit():
+                    noisy, cnt, ev = noise_explained(dist, inp, ctor, B, d, strict=True)
+                for idx in np.ndindex(B):
+                    if noisy[idx] and int(rgot[idx]) == cnt[idx]:
+                        explained[idx] = True
+                        res.outcome("mvn-rank", "null-eigenvalue-noise-above-tol", cn)
+                        j = int(np.argmax(np.abs(lp - want)[(slice(None),) + idx]))
+                        rec.fail("mvn-rank", f"null-eigenvalue-noise-above-tol:{cn}",
+                                 {**case, "batch_index": list(idx), "eigenvalues_float32": ev[idx].tolist(), "prec_float32": inp["prec32B"][idx].tolist(),
+                                  "call": "MultivariateNormalDegenerate(loc, prec)", "rank_reported": int(rgot[idx]), "rank_true": ref.spectral(inp["P"][ctor][idx])["rank"],
+                                  "x": Xr[j].tolist(), "log_prob": float(lp[(j,) + idx]), "range_space_density": float(want[(j,) + idx])},
+                                 f"[{cn}] rank {int(rgot[idx])} instead of {ref.spectral(inp['P'][ctor][idx])['rank']} for prec = pen{inp['pen_names']}/var{case0['var']} (batch {list(idx)}): the float32 eigenvalues {ev[idx].tolist()} of a numerically singular precision exceed the absolute tolerance 1e-6, so log_prob is off by {float(np.max(np.abs(lp - want)[(slice(None),) + idx])):.4g}")
+            for idx in np.ndindex(B):
+                if explained[idx]:
+                    continue
+                spP = ref.spectral(inp["P"][ctor][idx])
+                res.outcome("mvn-rank", cn, rank_class(spP["rank"], d))
+                if int(rgot[idx]) != spP["rank"]:
+                    rec.fail("mvn-rank", f"rank-{tag}", {**case, "batch_index": list(idx)}, f"[{cn}] rank {int(rgot[idx])} != {spP['rank']} for pen={inp['pen_names']} var={case0['var']} at batch {list(idx)}")
+                if not abs(float(lgot[idx]) - spP["log_pdet"]) <= 2 * MVN_RTOL * (1 + abs(spP["log_pdet"]) + d):
+                    rec.fail("mvn-rank", f"log_pdet-{tag}", {**case, "batch_index": list(idx)}, f"[{cn}] log_pdet {float(lgot[idx])!r} != {spP['log_pdet']!r} for pen={inp['pen_names']} var={case0['var']} at batch {list(idx)}")
+            keep = np.broadcast_to(~explained, want.shape)
             err = np.abs(lp - want) / scale
+            err = np.where(keep, err, 0.0)
             worst = max(worst, float(np.nanmax(err)))
             res.outcome("mvn-logprob", cn, "/".join(rcs), layout.split(":")[0], "pos" if np.any(lp > 0) else "", "neg" if np.any(lp < 0) else "")
             if first:
@@ -536,24 +618,14 @@ def run_mvn(unit, res):
                 i = np.unravel_index(int(np.argmax(bad)), bad.shape)
                 rec.fail("mvn-logprob", tag, {**case, "x": Xr[i[0]].tolist(), "batch_index": list(i[1:])},
                          f"MultivariateNormalDegenerate[{cn}] d={d} pen={inp['pen_names']} var={case0['var']} layout={layout}: log_prob({Xr[i[0]].tolist()})[{list(i[1:])}] = {lp[i]!r}, range-space density {want[i]!r} (tolerance {MVN_RTOL * scale[i]:.2g})")
-            # rank / log_pdet properties (of the precision matrix)
-            try:
-                rgot = np.broadcast_to(np.asarray(rk[0]), B)
-                lgot = np.broadcast_to(np.asarray(rk[1], dtype=np.float64), B)
-            except ValueError:
-                rec.fail("mvn-rank", f"shape-{tag}", case, f"rank shape {np.shape(rk[0])}, log_pdet shape {np.shape(rk[1])} do not broadcast to batch shape {B}")
-                continue
-            for idx in np.ndindex(B):
-                spP = ref.spectral(inp["P"][ctor][idx])
-                if int(rgot[idx]) != spP["rank"]:
-                    rec.fail("mvn-rank", f"rank-{tag}", {**case, "batch_index": list(idx)}, f"[{cn}] rank {int(rgot[idx])} != {spP['rank']} for pen={inp['pen_names']} var={case0['var']} at batch {list(idx)}")
-                if not abs(float(lgot[idx]) - spP["log_pdet"]) <= 2 * MVN_RTOL * (1 + abs(spP["log_pdet"]) + d):
-                    rec.fail("mvn-rank", f"log_pdet-{tag}", {**case, "batch_index": list(idx)}, f"[{cn}] log_pdet {float(lgot[idx])!r} != {spP['log_pdet']!r} for pen={inp['pen_names']} var={case0['var']} at batch {list(idx)}")
+            got_all[cn] = np.where(keep, lp, np.nan)
             # null-space invariance (direct, on the implementation's own values)
+            pshape = shapes["pen"]
             for pidx, (a0, a1), (b0, b1) in shifts:
                 for idx in np.ndindex(B):
+                    if explained[idx]:
+                        continue
                     # does batch element idx use penalty element pidx?
-                    pshape = shapes["pen"]
                     pi = tuple(0 if pshape[k] == 1 else idx[len(B) - len(pshape) + k] for k in range(len(pshape)))
                     if pi != pidx:
                         continue
@@ -566,18 +638,18 @@ def run_mvn(unit, res):
                         i = int(np.argmax(bad))
                         rec.fail("mvn-null", tag, {**case, "x": Xr[a0 + i].tolist(), "x_shifted": Xr[b0 + i].tolist(), "batch_index": list(idx)},
                                  f"[{cn}] log_prob changes by {diff[i]:.4g} when the null-space vector {(Xr[b0 + i] - Xr[a0 + i]).tolist()} of pen={inp['pen_names']} is added to {Xr[a0 + i].tolist()}")
-        # constructor agreement
+        # constructor agreement (NaN marks batch elements explained above)
         names = sorted(got_all)
         for a, b in itertools.combinations(names, 2):
             diff = np.abs(got_all[a] - got_all[b])
             tol = 2 * MVN_RTOL * scale
-            bad = ~(diff <= tol)
+            bad = diff > tol
             if np.any(bad):
                 i = np.unravel_index(int(np.argmax(bad)), bad.shape)
                 rec.fail("mvn-ctor", f"{a}-vs-{b}", {**case0, "x": Xr[i[0]].tolist(), "batch_index": list(i[1:])},
                          f"constructors {a} and {b} disagree by {diff[i]:.4g} at x={Xr[i[0]].tolist()} for d={d} pen={inp['pen_names']} var={case0['var']} layout={layout}")
         if len(names) == len(CTORS):
-            res.outcome("mvn-ctor", "all-12-agree", layout.split(":")[0])
+            res.outcome("mvn-ctor", "all-13-compared", layout.split(":")[0])
         if first:
             res.sample({**case0, "points": len(Xr), "constructors": len(names), "first_logprob": float(next(iter(got_all.values())).reshape(-1)[0]) if got_all else None})
         first = False
@@ -586,8 +658,10 @@ def run_mvn(unit, res):
     # the stacked batch alike), variance and loc as traced arguments
     varlist = [v for v in unit["vars"] if v != "batch"] or [1.0]
     layout, shapes = batch_layouts(penspec == "batch")[0]
-    for ctor in ("prec", "pen", "smooth"):
+    for ctor in ("prec", "pen", "smooth", "prectol"):
         for gr in (False, True):
+            if ctor == "prectol" and gr:
+                continue
             cn = ctor_name(ctor, gr, False) + ":jit"
             fn = None
             for v in varlist:
@@ -600,7 +674,9 @@ def run_mvn(unit, res):
                     rank_arg = inp["rank_arg"] if gr else None
 
                     def raw(loc, var, smooth, pen, prec, x, ctor=ctor, rank_arg=rank_arg):
-                        if ctor == "prec":
+                        if ctor == "prectol":
+                            dist = M(loc=loc, prec=prec, tol=EXPLICIT_TOL)
+                        elif ctor == "prec":
                             dist = M(loc=loc, prec=prec, rank=rank_arg)
                         elif ctor == "pen":
                             dist = M.from_penalty(loc=loc, var=var, pen=pen, rank=rank_arg)
@@ -615,26 +691,32 @@ def run_mvn(unit, res):
                 if not ok:
                     continue
                 lp = f64(lp)
-                want = np.empty((len(Xr),) + B)
-                scale = np.empty((len(Xr),) + B)
-                for idx in np.ndindex(B):
-                    w, s = ref.mvn_logpdf_many(Xr, inp["locB"][idx], inp["P"][ctor][idx])
-                    want[(slice(None),) + idx] = w
-                    scale[(slice(None),) + idx] = s
+                want, scale = ref_grid_mvn(Xr, inp, ctor, B)
                 res.states += want.size
                 res.executions += 1
                 res.outcome("mvn-logprob", cn)
                 if lp.shape != want.shape:
                     rec.fail("mvn-logprob", f"shape-{cn}", case, f"log_prob shape {lp.shape} (expected {want.shape})")
                     continue
-                err = np.abs(lp - want) / scale
+                explained = np.zeros(B, dtype=bool)
+                if ctor == "prec" and not gr:
+                    with jax.disable_jit():
+                        explained, cnt, ev = noise_explained(make_dist(M, jnp, ctor, gr, False, inp), inp, ctor, B, d, strict=True)
+                    # under jit the rank is not observable: the finding is emitted only where
+                    # the log-density is actually wrong
+                    wrong = np.any(~(np.abs(lp - want) / scale <= MVN_RTOL), axis=0)
+                    explained = explained & wrong
+                    if np.any(explained):
+                        idx = tuple(np.argwhere(explained)[0])
+                        rec.fail("mvn-rank", f"null-eigenvalue-noise-above-tol:{cn}", {**case, "batch_index": list(idx), "eigenvalues_float32": ev[idx].tolist(), "prec_float32": inp["prec32B"][idx].tolist()},
+                                 f"[{cn}] prec = pen{inp['pen_names']}/{v}: float32 eigenvalues {ev[idx].tolist()} of a numerically singular precision exceed the absolute tolerance 1e-6; log_prob is off by {float(np.max(np.abs(lp - want)[(slice(None),) + idx])):.4g}")
+                err = np.where(np.broadcast_to(~explained, want.shape), np.abs(lp - want) / scale, 0.0)
                 worst = max(worst, float(np.nanmax(err)))
                 bad = ~(err <= MVN_RTOL)
                 if np.any(bad):
                     i = np.unravel_index(int(np.argmax(bad)), bad.shape)
                     rec.fail("mvn-logprob", cn, {**case, "x": Xr[i[0]].tolist(), "batch_index": list(i[1:])},
                              f"[{cn}] d={d} pen={inp['pen_names']} var={v}: log_prob({Xr[i[0]].tolist()}) = {lp[i]!r}, range-space density {want[i]!r}")
-    res.extra["mvn_worst_err_over_scale_e9"] = int(worst * 1e9)
 
 
 # ---------------------------------------------------------------------------------
@@ -670,7 +752,7 @@ def run_mvn_sample(unit, res):
             raise HarnessError(f"sampler seam: expected exactly one normal draw, saw {calls}")
         return np.asarray(out, dtype=np.float64), calls[0][1]
 
-    for penspec in ref.penalties(d) + ["batch"]:
+    for penspec in [unit["pen"]]:
         layouts = [("none", {"pen": (), "var": (), "loc": ()}), ("2x3:loc", {"pen": (), "var": (), "loc": (2, 3)}), ("2:var", {"pen": (), "var": (2,), "loc": ()})] if penspec != "batch" else [
             ("2:pen", {"pen": (2,), "var": (), "loc": ()}), ("2x3:pen+loc", {"pen": (2, 3), "var": (), "loc": (2, 3)}), ("mixed:pen(3)var(2,3)loc(2,1)", {"pen": (3,), "var": (2, 3), "loc": (2, 1)})]
         for layout, shapes in layouts:
@@ -678,10 +760,10 @@ def run_mvn_sample(unit, res):
                 for ls in (["batch"] if shapes["loc"] else ["zero", "vec"]):
                     inp = prepare(d, penspec, v, ls, shapes, list(unit["vars"]), jnp)
                     B = inp["B"]
-                    for ctor in ("prec", "pen", "smooth"):
-                        case = {"d": d, "pen": inp["pen_names"], "var": f64(inp["var32"]).tolist(), "loc": f64(inp["loc32"]).tolist(), "layout": layout, "ctor": ctor}
+                    for ctor in ("prec", "pen", "smooth", "prectol"):
+                        case = {"d": d, "pen": inp["pen_names"], "var": f64(inp["var32"]).tolist(), "loc": f64(inp["loc32"]).tolist(), "layout": layout, "ctor": ctor_name(ctor, False, False)}
                         rcs = sorted({rank_class(int(r), d) for r in inp["ranksB"].reshape(-1)})
-                        tag = f"{ctor}:{'/'.join(rcs)}:{'batched' if B else 'unbatched'}"
+                        tag = f"{ctor_name(ctor, False, False)}:{'/'.join(rcs)}:{'batched' if B else 'unbatched'}"
                         ok, dist = call(rec, "mvn-sample", f"construct-{tag}", case, lambda: make_dist(M, jnp, ctor, False, False, inp))
                         if not ok:
                             continue
@@ -707,6 +789,8 @@ def run_mvn_sample(unit, res):
                         if not good:
                             continue
                         res.executions += 1
+                        noisy, _, ev = noise_explained(dist, inp, ctor, B, d, strict=False)
+                        noise_sig = f"null-eigenvalue-noise-above-tol:{ctor_name(ctor, False, False)}"
                         for idx in np.ndindex(B):
                             spP = ref.spectral(inp["P"][ctor][idx])
                             Sb = S[idx]
@@ -719,6 +803,15 @@ def run_mvn_sample(unit, res):
                             res.outcome("mvn-sample", ctor, rank_class(spP["rank"], d), "S=0" if not np.any(Sb) else "S!=0")
                             if first:
                                 res.note([case, Sb])
+                            if noisy[idx]:
+                                if not (e1 <= SAMPLE_RTOL and e2 <= SAMPLE_RTOL):
+                                    res.outcome("mvn-sample", "null-eigenvalue-noise-above-tol", ctor)
+                                    rec.fail("mvn-sample", noise_sig,
+                                             {**case, "batch_index": list(idx), "eigenvalues_float32": ev[idx].tolist(), "prec_float32": inp["prec32B"][idx].tolist(),
+                                              "call": "dist.sample(seed=key) with the normal draw scripted to e_i", "S_St": np.round(cov, 4).tolist(), "pinv": np.round(spP["pinv"], 6).tolist(),
+                                              "null_component_of_S": np.round(spP["null"].T @ Sb, 4).tolist()},
+                                             f"[{case['ctor']}] d={d} pen={inp['pen_names']} var={case['var']} batch {list(idx)}: float32 eigenvalues {ev[idx].tolist()} of the numerically singular precision are >= the absolute tolerance 1e-6, so a null direction is inverted instead of zeroed: max|S S^T| = {np.max(np.abs(cov)):.4g} but max|pinv(P)| = {np.max(np.abs(spP['pinv'])):.4g}; N^T S = {np.round(spP['null'].T @ Sb, 3).tolist()}")
+                                continue
                             if not e1 <= SAMPLE_RTOL:
                                 rec.fail("mvn-sample", f"cov-{tag}", {**case, "batch_index": list(idx)},
                                          f"[{ctor}] sampler map S (from z=e_i) has S S^T = {np.round(cov, 5).tolist()} but pinv(P) = {np.round(spP['pinv'], 5).tolist()} for d={d} pen={inp['pen_names']} var={case['var']} batch {list(idx)}")
@@ -754,7 +847,7 @@ def run_mvn_sample(unit, res):
                                 rec.fail("mvn-sample", f"linear-{tag}", {**case, "sample_shape": list(sshape)},
                                          f"[{ctor}] sample({sshape}) is not loc + S z element by element (max deviation {np.max(np.abs(out - want)):.4g}) for d={d} pen={inp['pen_names']} layout={layout}")
                         # 3. real keys (input labels): samples lie in loc + range(P)
-                        if ctor == "pen":
+                        if ctor in ("pen", "prectol"):
                             for k in unit["keys"]:
                                 ok, x = call(rec, "mvn-sample", tag, case, lambda: np.asarray(dist.sample((3,), seed=jax.random.PRNGKey(k)), dtype=np.float64))
                                 res.transitions += 1
@@ -772,13 +865,15 @@ def run_mvn_sample(unit, res):
                                     mx = max(1e-3, float(np.max(np.abs(spP["pinv"]))))
                                     e = float(np.max(np.abs(xc @ spP["null"]))) / np.sqrt(mx)
                                     res.outcome("mvn-sample-realkey", rank_class(spP["rank"], d))
-                                    if not e <= 20 * SAMPLE_RTOL:
+                                    if not e <= 20 * SAMPLE_RTOL and noisy[idx]:
+                                        rec.fail("mvn-sample", noise_sig, {**case, "key": k, "batch_index": list(idx), "eigenvalues_float32": ev[idx].tolist()},
+                                                 f"[{case['ctor']}] sample with PRNGKey({k}) has a null-space component {e:.4g} (float32 eigenvalue noise above tol) for d={d} pen={inp['pen_names']} var={case['var']}")
+                                    elif not e <= 20 * SAMPLE_RTOL:
                                         rec.fail("mvn-sample", f"range-realkey-{tag}", {**case, "key": k, "batch_index": list(idx)},
                                                  f"[{ctor}] sample with PRNGKey({k}) has a null-space component {e:.4g} for d={d} pen={inp['pen_names']}")
                         if first:
                             res.sample({**case, "S": np.round(S, 6).tolist()})
                         first = False
-    res.extra["sample_worst_rel_err_e9"] = int(worst * 1e9)
 
 
 def run_unit(unit):
